@@ -408,6 +408,10 @@ Step(s, e) ==
         [s |-> [s EXCEPT !.dead = TRUE, !.pm12 = TRUE], v |-> {}, dev |-> {}, note |-> {"FAULT"}]
    ELSE IF e.r.k \in {"panic", "hang"} THEN
         [s |-> [s EXCEPT !.dead = TRUE], v |-> {IF e.r.k = "panic" THEN "C00.panic" ELSE "C00.hang"}, dev |-> {}, note |-> {}]
+   ELSE IF Has(e, "raw") /\ ~e.raw.ok THEN
+        \* after this call the independent decoder can no longer make sense of the image (boot sector damaged, or the table area full of
+        \* stray data): the strongest form of "structures inconsistent"; nothing further is judged
+        [s |-> [s EXCEPT !.dead = TRUE], v |-> {"C00.undecodable"}, dev |-> {}, note |-> {}]
    ELSE
    LET post == IF Has(e, "raw") THEN e.raw ELSE s.raw
        Dp == IF Has(e, "raw") THEN Derive(post, s.oem) ELSE s.D
